@@ -208,7 +208,9 @@ def check_transformer(case, ctx):
         kw["stop"] = hi + pad
     ctx.label("fix:" + case["fix"], "flatten" if case["flatten"] else "2d")
     ctx.nontrivial(len(bars) >= 2)
-    tr = ctx.call(PersistenceLandscaper, hom_deg=h, num_steps=case["num_steps"], flatten=case["flatten"], **kw)
+    h_arg = np.int64(h) if case["num_steps"] % 2 == 0 else h      # the degree as a NumPy integer (np.arange loops, grid searches) in every second case
+    ctx.label("hom_deg_as:" + type(h_arg).__name__)
+    tr = ctx.call(PersistenceLandscaper, hom_deg=h_arg, num_steps=case["num_steps"], flatten=case["flatten"], **kw)
     out = np.asarray(ctx.call(tr.fit_transform, dg))
     pla = ctx.call(PersLandscapeApprox, dgms=dg, hom_deg=h, num_steps=case["num_steps"], start=kw.get("start", lo), stop=kw.get("stop", hi))
     want = pla.values
